@@ -56,6 +56,22 @@ func checkC16(c *Ctx) error {
 			gen.Inject(r, conf, kind, j)
 			kinds = append(kinds, kind)
 		}
+		if i%11 == 6 && !many {
+			// a configuration without any service (parameters and decorators only, e.g. one file of a larger setup validated on its
+			// own): the arguments of its decorators are references like any other
+			conf.Services = nil
+			conf.Decorators = append(conf.Decorators, cfg.Decorator{Tag: "orphanTag", Decorator: `"fixt/pa".DecSame`, Args: []cfg.Val{cfg.Int(1), cfg.Str("@goneService")}})
+			pure := true
+			for _, k := range kinds {
+				pure = pure && (k == "missing-param" || k == "missing-service" || k == "missing-mixed")
+			}
+			if pure {
+				kinds = append(kinds, "missing-service")
+			} else {
+				kinds = append(kinds, "other")
+			}
+			c.Add("configurations_without_any_service", 1)
+		}
 		cases[i] = cse{conf.YAML(), kinds, conf}
 	}
 	Par(n+n/3, 16, func(i int) {
